@@ -206,6 +206,14 @@ class Interp:
             if st.value is not None:
                 self.assign(st.target, self.eval(st.value, env), env)
             return
+        if isinstance(st, ast.AugAssign):
+            cur = self.eval(st.target, env)
+            val = self.eval(st.value, env)
+            fake = ast.BinOp(left=st.target, op=st.op, right=st.value)
+            ast.copy_location(fake, st)
+            fake._module = st._module  # type: ignore[attr-defined]
+            self.assign(st.target, self.binop(fake, cur, val), env)
+            return
         if isinstance(st, ast.If):
             c = self.truth(self.eval(st.test, env), st.test)
             self.exec_block(st.body if c else st.orelse, env)
